@@ -155,6 +155,8 @@ def cases(rng, tier):
                 out.append({"op": "key_hist", "kind": kind, "calls": calls, "holds_private": holds_private})
     out.append({"op": "keyset", "kinds": ["RSA-2048", "EC-P-256-lz", "OKP-Ed25519", "oct-16"]})
     out.append({"op": "keyset", "kinds": ["EC-P-521-lz", "OKP-X25519"]})
+    out.append({"op": "keyset", "kinds": ["RSA-2048", "RSA-1024", "EC-P-256", "EC-P-384-lz", "OKP-Ed25519", "OKP-Ed448"]})       # several members of one type, none with an explicit kid
+    out.append({"op": "keyset", "kinds": ["oct-16", "oct-64"]})
     return out
 
 
@@ -267,7 +269,18 @@ def impl(c):
     if op == "keyset":
         ks = KeySet([import_in_form(make_key(k, rng), "object", True, None) for k in c["kinds"]])
         pub = ks.as_dict()
-        return {"public_members": sorted({m for k in pub["keys"] for m in k}), "_pub": pub, "_json": ks.as_json()}
+        keys = [make_key(k, rng) for k in c["kinds"]]
+        want = [ref_thumbprint(ref_jwk(k, False) if not isinstance(k, bytes) else {"kty": "oct", "k": R.b64u(k).decode()}) for k in keys]
+        # the same set imported from a JWKS document whose members carry no kid (public members; oct keys have only the private form)
+        doc = {"keys": [ref_jwk(k, False) if not isinstance(k, bytes) else {"kty": "oct", "k": R.b64u(k).decode()} for k in keys]}
+        try:
+            ks2 = JsonWebKey.import_key_set(json.loads(json.dumps(doc)))
+            kids2 = [m.get("kid") for m in ks2.as_dict()["keys"]]
+            found = None
+        except Exception as e:
+            kids2, found = "raised " + type(e).__name__, None
+        return {"public_members": sorted({m for k in pub["keys"] for m in k}), "_pub": pub, "_json": ks.as_json(),
+                "kids": [m.get("kid") for m in pub["keys"]], "kids_imported": kids2, "want_kids": want, "found": found}
     return impl_key(c, rng)
 
 
@@ -434,6 +447,11 @@ def oracle(c, out):
             bad(f"public export of a key set contains private members {sorted(leak)}", kind="private-leak", where="keyset")
         if json.loads(out["_json"]) != json.loads(json.dumps(out["_pub"])):
             bad("KeySet.as_json differs from as_dict", kind="json-dict")
+        if out["kids"] != out["want_kids"] or out["kids_imported"] != out["want_kids"]:
+            bad(f"a key set of {len(out['want_kids'])} keys ({kinds}, no explicit kid) exports members with thumbprints {out['kids']} (built from objects) / {out['kids_imported']} "
+                f"(imported from a JWKS document); the keys' RFC 7638 thumbprints are {out['want_kids']}", kind="keyset-members")
+        elif out["found"] is not None and not all(out["found"]):
+            bad(f"find_by_kid on an imported key set does not return the member with that thumbprint: {out['found']}", kind="keyset-members")
     elif op == "key":
         kty = out["kty"]
         refpub, refpriv = out["_ref_public"], out["_ref_private"]
